@@ -104,6 +104,8 @@ type call struct {
 }
 
 type scenRun struct {
+	lclosed  bool // the application closed its ibb listener
+	accepted int
 	fx       *fixture
 	p        *parts
 	mu       sync.Mutex
@@ -111,6 +113,25 @@ type scenRun struct {
 	conns    map[string]net.Conn
 	answered map[string]bool
 	probes   int
+}
+
+// acceptLoop accepts every incoming stream of one listener: in, in2, in3, …
+func (sr *scenRun) acceptLoop(l *ibb.Listener) {
+	for {
+		c, err := l.Accept()
+		if err != nil {
+			return
+		}
+		sr.mu.Lock()
+		sr.accepted++
+		n := sr.accepted
+		sr.mu.Unlock()
+		if n == 1 {
+			sr.setConn("in", c)
+		} else {
+			sr.setConn(fmt.Sprintf("in%d", n), c)
+		}
+	}
 }
 
 func (sr *scenRun) conn(name string) net.Conn {
@@ -229,6 +250,33 @@ var localCalls = map[string]func(ctx context.Context, sr *scenRun, arg string){
 			_ = c.Close()
 		}
 	},
+	// the application closes its listener / listens again
+	"ibblistenclose": func(ctx context.Context, sr *scenRun, _ string) {
+		sr.mu.Lock()
+		already := sr.lclosed
+		sr.lclosed = true
+		l := sr.p.l
+		sr.mu.Unlock()
+		if !already {
+			_ = l.Close()
+		}
+	},
+	"ibblisten": func(ctx context.Context, sr *scenRun, _ string) {
+		sr.mu.Lock()
+		if !sr.lclosed {
+			sr.mu.Unlock()
+			return
+		}
+		sr.lclosed = false
+		sr.p.l = sr.p.ih.Listen(sr.fx.rs.S)
+		l := sr.p.l
+		sr.mu.Unlock()
+		go sr.acceptLoop(l)
+	},
+	// the application closes the session's output stream
+	"sessclose": func(ctx context.Context, sr *scenRun, _ string) {
+		_ = sr.fx.rs.S.Close()
+	},
 	"mucjoin": func(ctx context.Context, sr *scenRun, _ string) {
 		_, _ = sr.p.mc.Join(ctx, room, sr.fx.rs.S)
 	},
@@ -288,6 +336,11 @@ func (sr *scenRun) feed(b []byte) bool {
 	select {
 	case err := <-fed:
 		return err == nil
+	case o := <-sr.fx.done:
+		// Serve ended while (or before) these bytes were offered: nobody reads any more
+		sr.fx.done <- o
+		_ = sr.fx.rs.In.Close()
+		return false
 	case <-time.After(watchdog):
 		return false
 	}
@@ -311,19 +364,7 @@ func runScenario(steps []string) outcome {
 	}
 	p.l = p.ih.Listen(fx.rs.S)
 	sr := &scenRun{fx: fx, p: p, calls: map[string]*call{}, conns: map[string]net.Conn{}, answered: map[string]bool{}}
-	go func() {
-		for n := 1; ; n++ {
-			c, err := p.l.Accept()
-			if err != nil {
-				return
-			}
-			if n == 1 {
-				sr.setConn("in", c)
-			} else {
-				sr.setConn(fmt.Sprintf("in%d", n), c)
-			}
-		}
-	}()
+	go sr.acceptLoop(p.l)
 	serveEnded := false
 	var serveOut outcome
 	stopAuto := make(chan struct{})
@@ -343,7 +384,12 @@ func runScenario(steps []string) outcome {
 		for _, c := range sr.calls {
 			c.cancel()
 		}
-		_ = p.l.Close()
+		sr.mu.Lock()
+		if !sr.lclosed {
+			sr.lclosed = true
+			_ = sr.p.l.Close()
+		}
+		sr.mu.Unlock()
 		// what an application does when its session has ended: close its streams (this also
 		// releases readers of a stream the peer orphaned, e.g. by re-opening its sid; ibb's
 		// Read does not honour read deadlines — noted for C15 in DESIGN-notes/C09.md)
@@ -505,6 +551,8 @@ func runScenario(steps []string) outcome {
 					time.Sleep(200 * time.Microsecond)
 				}
 			}()
+		case "failwrites":
+			fx.fw.failNow()
 		case "probe":
 			if checkServe() {
 				if serveOut.panicMsg != "" {
@@ -621,6 +669,13 @@ func mamResult(qid string) string {
 type scenario struct {
 	name  string
 	steps []string
+	// noProbe: the scenario breaks the output (local close / write failure), so a liveness
+	// probe cannot be answered; only Serve's return at the end of the input is checked
+	noProbe bool
+}
+
+func scNoProbe(name string, steps ...string) scenario {
+	return scenario{name: name, steps: append(steps, "end"), noProbe: true}
 }
 
 func sc(name string, steps ...string) scenario {
@@ -689,6 +744,22 @@ func scenarioList() []scenario {
 		sc("ibb-out-write-refused", "call:ibbopen", await(`id="o1"`), feed(iq("result", "o1", "")), "wait:ibbopen", auto("<data", "error", errPayload), "call:ibbwrite.out", "wait:ibbwrite.out",
 			"call:ibbclose.out", replyto("<close", "error", errPayload), "wait:ibbclose.out"),
 	)
+	// --- ibb listener life cycle (the session's local address is a full JID) -----------------
+	l = append(l,
+		sc("ibb-listener-closed-then-open", "call:ibblistenclose", "wait:ibblistenclose", feed(ibbOpen("i1", "s1")), "probe", feed(ibbData("i2", "s1", 0)), feed(ibbOpen("i3", "s2"))),
+		sc("ibb-listener-closed-and-reopened", "call:ibblistenclose", "wait:ibblistenclose", feed(ibbOpen("i1", "s1")), "call:ibblisten", "wait:ibblisten", feed(ibbOpen("i2", "s2")), "call:ibbaccept", "wait:ibbaccept", feed(ibbData("i3", "s2", 0))),
+		sc("ibb-listener-closed-with-open-stream", "call:ibbaccept", feed(ibbOpen("i1", "s1")), "wait:ibbaccept", "call:ibblistenclose", "wait:ibblistenclose", feed(ibbData("i2", "s1", 0)), feed(ibbOpen("i3", "s2")), feed(ibbClose("i4", "s1")), feed(ibbOpen("i5", "s1"))),
+		sc("ibb-listener-closed-twice-reopened-twice", "call:ibblistenclose", "wait:ibblistenclose", "call:ibblisten", "wait:ibblisten", "call:ibblistenclose.2", "wait:ibblistenclose.2", feed(ibbOpen("i1", "s1")), "call:ibblisten.2", "wait:ibblisten.2", feed(ibbOpen("i2", "s1"))),
+	)
+	// --- local faults in the middle of a conversation ------------------------------------------
+	l = append(l,
+		scNoProbe("local-close-then-requests", feed(iq("get", "p1", `<ping xmlns="urn:xmpp:ping"/>`)), "call:sessclose", "wait:sessclose", feed(iq("get", "p2", `<ping xmlns="urn:xmpp:ping"/>`)), feed(iq("get", "p3", `<query xmlns="jabber:iq:version"/>`)), feed(receipt("x"))),
+		scNoProbe("write-failure-then-requests", feed(iq("get", "p1", `<ping xmlns="urn:xmpp:ping"/>`)), "failwrites", feed(iq("get", "p2", `<ping xmlns="urn:xmpp:ping"/>`)), feed(iq("get", "p3", `<query xmlns="jabber:iq:version"/>`))),
+		scNoProbe("local-close-with-pending-request", "call:uiq", await(`id="q1"`), "call:sessclose", "wait:sessclose", feed(iq("result", "q1", versionPayload)), "wait:uiq", feed(iq("get", "p2", `<ping xmlns="urn:xmpp:ping"/>`))),
+		scNoProbe("write-failure-with-pending-request", "call:uiq", await(`id="q1"`), "failwrites", feed(iq("get", "p2", `<ping xmlns="urn:xmpp:ping"/>`)), feed(iq("result", "q1", versionPayload)), "cancel:uiq", "wait:uiq"),
+		scNoProbe("write-failure-during-ibb", "call:ibbaccept", feed(ibbOpen("i1", "s1")), "wait:ibbaccept", "failwrites", feed(ibbData("i2", "s1", 0)), feed(ibbClose("i3", "s1"))),
+		scNoProbe("local-close-twice", "call:sessclose", "wait:sessclose", "call:sessclose.2", "wait:sessclose.2", feed(iq("get", "p1", `<ping xmlns="urn:xmpp:ping"/>`))),
+	)
 	// --- muc ---------------------------------------------------------------------------------
 	l = append(l,
 		sc("muc-unmanaged-presences", feed(mucPresence("other@conf.example/x", "", true)), feed(mucPresence("other@conf.example/x", "unavailable", true)), feed(mucPresence("room@conf.example/nick", "", true))),
@@ -720,6 +791,9 @@ func (c *ctx) scen(s scenario, class string) {
 	o := runScenario(s.steps)
 	if d := time.Since(t0); os.Getenv("C09_DEBUG") != "" && (d > 300*time.Millisecond || o.obs() != "ok") {
 		fmt.Fprintf(os.Stderr, "scen %s %v %s %s\n", s.name, d, o.obs(), o.where)
+		if d > 10*time.Second {
+			fmt.Fprintf(os.Stderr, "  steps: %.600s\n", strings.Join(s.steps, ","))
+		}
 	}
 	if o.stalled {
 		c.stalls["scen"]++
@@ -744,7 +818,11 @@ func (c *ctx) scenarios() {
 	n := c.r.Pick(150, 1500)
 	for i := 0; i < n; i++ {
 		base := pick(rnd, list)
-		steps := append([]string(nil), base.steps[:len(base.steps)-2]...)
+		tail := 2
+		if base.noProbe {
+			tail = 1
+		}
+		steps := append([]string(nil), base.steps[:len(base.steps)-tail]...)
 		for m := 1 + rnd.Intn(3); m > 0 && len(steps) > 0; m-- {
 			k := rnd.Intn(len(steps))
 			isPeer := strings.HasPrefix(steps[k], "feed:") || strings.HasPrefix(steps[k], "replyto:") || strings.HasPrefix(steps[k], "auto:")
@@ -786,6 +864,17 @@ func (c *ctx) scenarios() {
 				continue
 			}
 			out = append(out, st)
+		}
+		if base.noProbe {
+			// probes inside the script would be unanswerable as well
+			var np []string
+			for _, st := range out {
+				if st != "probe" {
+					np = append(np, st)
+				}
+			}
+			c.scen(scenario{name: base.name + "~", steps: append(np, "end"), noProbe: true}, "scenario-random")
+			continue
 		}
 		c.scen(scenario{name: base.name + "~", steps: append(out, "probe", "end")}, "scenario-random")
 	}
